@@ -232,10 +232,10 @@ func (hostsafe) Stages(plan any) error {
 	for _, c := range p.Calls {
 		switch c.Kind {
 		case "eval":
-			st, err := goatlang.VerifStages("eval", disk.FS(), c.Name, string(c.Src))
+			st, err := goatlang.VerifStagesDump("eval", disk.FS(), c.Name, string(c.Src), c.Tree, c.Code)
 			fmt.Printf("eval %q: %s %v\n", c.Name, st, err != nil)
 		case "load":
-			st, err := goatlang.VerifStages("load", disk.FS(), c.Name, "")
+			st, err := goatlang.VerifStagesDump("load", disk.FS(), c.Name, "", c.Tree, c.Code)
 			fmt.Printf("load %q: %s %v\n", c.Name, st, err != nil)
 		}
 	}
